@@ -32,6 +32,10 @@ TOPOS["readdr"] = [O(x) for x in ("0", "1", "3", "11", "31", "13", "113")]
 TOPOS["retsys"] = [O(x) for x in ("0", "2", "12", "32")]
 # routers whose multicast level was overridden (below / above their own level): routing is by address, not by level
 TOPOS["mclevel"] = [O(x) for x in ("0", "1", "11", "111", "1111", "2")]
+# every node has switched fragmentation and multicasting off and on again (and re-assigned its address, as documented)
+TOPOS["toggled"] = [O(x) for x in ("0", "3", "13", "213")]
+NODE_ATTR_SEQ = {"toggled": [("fragmentation", False), ("fragmentation", True), ("allow_multicast", False), ("allow_multicast", True),
+                             ("multicast_relay", True), ("multicast_relay", False)]}
 NODE_ATTRS = {"retsys": {a: {"ret_sys_msg": True} for a in TOPOS["retsys"]},
               "mclevel": {O("1"): {"multicast_level": 0}, O("11"): {"multicast_level": 0}, O("111"): {"multicast_level": 4}, O("2"): {"multicast_level": 3}}}
 PRE_ADDR = {O("0"): O("12"), O("1"): O("234"), O("3"): O("5"), O("11"): O("2"), O("31"): O("1234"), O("13"): O("4"), O("113"): O("35")}
@@ -54,6 +58,9 @@ def template(topo, cost, frag):
         for sp in specs:
             if sp["addr"] in NODE_ATTRS.get(topo, {}):
                 sp["attrs"] = dict(NODE_ATTRS[topo][sp["addr"]])
+            if topo in NODE_ATTR_SEQ:
+                sp["attr_seq"] = list(NODE_ATTR_SEQ[topo])
+                sp["rebegin"] = True
         t = N.Net(specs, cost_class=cost)
         if not frag:
             for n in t.nodes.values():
@@ -317,7 +324,7 @@ def run(tier, seed, rep, only=None):
     return dict(
         level="model_checking",
         exhaustive=True,
-        rule="every ordered (src,dst) pair of 6 topologies (chain to depth 4 with 8-hop routes, bushy, mixed routing-only/full, a tree of re-addressed nodes, nodes with ret_sys_msg on, "
+        rule="every ordered (src,dst) pair of 7 topologies (nodes that toggled fragmentation / multicasting off and on again, chain to depth 4 with 8-hop routes, bushy, mixed routing-only/full, a tree of re-addressed nodes, nodes with ret_sys_msg on, "
              "a chain whose routers have overridden multicast levels) x message "
              "lengths x fragmentation on/off x API x SPI-cost class x poll-latency class (per-run classes enumerated; per-delivery latency "
              "deviations explored exhaustively up to the stated deviation bound on 6 routes). One execution = all nodes running the real "
